@@ -201,6 +201,38 @@ def threshold_pairs(chk):
             if not s1 or not s2 or s2[:len(s1)] != s1 or s2[-1] != f2 or s1[-1] != f1:     # (no recorded state at all: the clusterer was not entered)
                 per[link]['badp'].append((link, m, t1, t2))
             per[link]['chains'].append((s2, m, t1, t2))
+    # a sweep as a user writes it: ONE matrix object handed to every call, `for threshold: for method: flat_cluster(method, threshold, M)`;
+    # the partitions of each linkage have to be nested along the thresholds
+    sweeps = []
+    for m, t1, t2 in pairs[::chk.n(6, 2)]:
+        shared = rng.choice([lambda: [list(r) for r in m], lambda: __import__('numpy').array([list(map(float, r)) for r in m])])()
+        order = list(cl.LINKS)
+        rng.shuffle(order)
+        vals = sorted(set(v for r in m for v in r))
+        ts = sorted(set([t1, t2] + rng.sample(vals, min(2, len(vals)))))
+        got = {l: [] for l in cl.LINKS}
+        calls = []
+        try:
+            for t in ts:
+                for link in order:
+                    res = _cluster.flat_cluster(link, t, shared)
+                    got[link].append((t, sorted(sorted(v) for v in res.values())))
+                    calls.append((link, t))
+                    chk.evaluations += 1
+        except Exception as ex:  # noqa
+            sweeps.append((order[0], m, ts[0], ts[-1], 'raised %s' % type(ex).__name__, calls))
+            continue
+        for link in cl.LINKS:
+            for (ta, pa), (tb, pb) in zip(got[link], got[link][1:]):
+                if not cl.refines(pa, pb):
+                    sweeps.append((link, m, ta, tb, 'clusters %r at %r are not nested in clusters %r at %r' % (pa, ta, pb, tb), calls))
+                    break
+    chk.hist['threshold sweeps over one shared matrix object (lists / numpy array)'] += len(pairs[::chk.n(6, 2)])
+    chk.obligation('oracle:C10 nesting along a threshold sweep that hands one matrix object to all calls of all linkages', 'correspondence',
+                   not sweeps, 'failures=%d' % len(sweeps))
+    for f in sweeps[:1]:
+        chk.violation('flat_cluster(%s) in a sweep over one matrix object: %s' % (f[0], f[4]),
+                      {'kind': 'threshold-sweep-shared-matrix', 'link': f[0], 'matrix': f[1], 't1': f[2], 't2': f[3], 'why': f[4], 'calls_in_order': f[5]})
     if any(per[l]['badp'] for l in cl.LINKS) and not any(per[l]['fails'] for l in cl.LINKS):
         # the merge sequence depends on the threshold: search small grid-valued matrices (many exact ties, thresholds equal to entries
         # and between them) for clusters that are not nested
